@@ -4,10 +4,10 @@
    native, recycled, and ids that do not exist yet (an ordinary one and one in the reserved system
    range); every subset of ids in the request, attribute variants (synchronisable / yielded / foreign),
    refresh / active / stale state, retention modes, identities.
-   The model exhibits the design hypothesis (DESIGN section 8): phase 2 creates stubs through the internal
-   identity, so a missing id from the reserved range is created (and tagged built-in). Those states
-   are reported (HYPOTHESIS tuple) and excluded from Inv so the rest of the space is still checked; the
-   orchestrator replays exactly that request on the real server and lets L1 judge the observation. *)
+   History: before repository commit bd2dcf7 phase 2 created stubs for missing ids of the reserved range
+   (DESIGN section 8 hypothesis, reproduced on the real code: finding C50-sync-creates-reserved-uuid, now
+   fixed); L2 transcribes the repaired phase 2, the arm "refused-reserved-range-id" guards that path and
+   every run replays the former witness on the real server. *)
 EXTENDS KSync
 
 Syncable == {"name", "description", "member"}
@@ -38,7 +38,7 @@ Extra == {"none", "description", "entry_managed_by"}
 ReqEntries(sel, extra, ext) ==
   LET ids == SelectSeq(Order, LAMBDA x : x \in sel) IN
   [i \in DOMAIN ids |->
-     [id |-> ids[i], kind |-> "group", ext |-> ext,
+     [id |-> ids[i], sys |-> ids[i] \in Reserved, kind |-> "group", ext |-> ext,
       attrs |-> [a \in {"name"} \cup (IF i = 1 /\ extra # "none" THEN {extra} ELSE {}) |-> IF a = "name" THEN {ids[i]} ELSE {"v2"}]]]
 Retains == {[mode |-> "ignore", ids |-> {}], [mode |-> "retain", ids |-> {"o1"}], [mode |-> "retain", ids |-> {}],
             [mode |-> "delete", ids |-> {"o2"}], [mode |-> "delete", ids |-> {"t1"}], [mode |-> "delete", ids |-> {"r1"}],
@@ -73,19 +73,16 @@ Post ==
          e2 == IF x \in M.deleted THEN [e1 EXCEPT !.live = "recycled", !.attrs = [e1.attrs EXCEPT !["class"] = @ \cup {"recycled"}]] ELSE e1
      IN  IF x = A THEN Agreement("s1", yld, TRUE) ELSE e2]
 
-ReservedCreated == M.created \cap Reserved # {}
-Inv == (M.ok /\ ~ReservedCreated) => L1Sync(A, Syncable, yld, St, Post)
-\* the hypothesis is exactly this: with a reserved id the transcription succeeds and L1 rejects the result
-Hyp == (M.ok /\ ReservedCreated) => ~L1Sync(A, Syncable, yld, St, Post)
+Inv == M.ok => L1Sync(A, Syncable, yld, St, Post)
 
 ASSUME \A i \in 1..7 : TLCSet(i, 0)
 Arm(i, name, cond) == (TLCGet(i) = 0 /\ cond) => (TLCSet(i, 1) /\ PrintT(<<"ARM", name>>))
 Arms ==
-  /\ Arm(1, "sync-ok-creates", M.ok /\ M.created # {} /\ ~ReservedCreated)
+  /\ Arm(1, "sync-ok-creates", M.ok /\ M.created # {})
   /\ Arm(2, "sync-ok-deletes", M.ok /\ M.deleted # {})
   /\ Arm(3, "refused-foreign-entry", ~M.ok /\ idk = "synch" /\ from = "refresh" /\ ext /\ extra = "none" /\ {"t1", "n1"} \cap sel # {} /\ "r1" \notin sel)
   /\ Arm(4, "refused-yielded-attribute", ~M.ok /\ yld # {} /\ extra = "description" /\ sel = {"o1"} /\ idk = "synch" /\ from = "refresh" /\ ext /\ retain.mode = "ignore")
   /\ Arm(5, "refused-out-of-scope-delete", ~M.ok /\ sel = {} /\ idk = "synch" /\ from = "refresh" /\ retain.mode = "delete" /\ retain.ids \cap {"t1", "n1"} # {})
   /\ Arm(6, "refresh-cleanup", M.ok /\ from = "refresh" /\ retain.mode = "ignore" /\ M.deleted # {})
-  /\ (((TLCGet(7) = 0) /\ M.ok /\ ReservedCreated) => (TLCSet(7, 1) /\ PrintT(<<"HYPOTHESIS", "reserved-uuid-created-by-sync">>)))
+  /\ Arm(7, "refused-reserved-range-id", ~M.ok /\ sel = {"res1"} /\ idk = "synch" /\ from = "refresh" /\ ext /\ extra = "none" /\ retain.mode = "ignore")
 =============================================================================
